@@ -7,7 +7,7 @@ from ..ref import P, L, to32, le
 
 REQUIRED = ['seed:corner', 'seed:random', 'msg:len0', 'msg:len128', 'msg:long', 'ctx:0', 'ctx:255', 'ctx:256-refused',
             'ctx:1000-refused', 'keypair:match', 'keypair:mismatch', 'keypair:mismatch-torsion', 'keypair:pkcs8', 'keypair:mismatch-undecodable', 'accept:own', 'reject:flip-key', 'reject:flip-msg',
-            'reject:flip-ctx', 'reject:flip-R', 'reject:flip-S', 'hazmat:passthrough', 'batch:own', 'traits:pure', 'traits:prehash']
+            'reject:flip-ctx', 'reject:flip-R', 'reject:flip-S', 'hazmat:passthrough', 'batch:own', 'batch:large', 'traits:pure', 'traits:prehash']
 
 MSG_LENS = [0, 1, 63, 64, 65, 111, 112, 127, 128, 129]
 
@@ -208,9 +208,28 @@ def gen(ctx, size, long_msgs=False):
         ctx.add('sig.rawsign_pt', esk.hex(), hx(msg), expect=[Ab.hex(), (R + to32(S)).hex(), 'ok'], cls='hazmat:passthrough')
 
 
+def large_batch(ctx):
+    """every produced signature is accepted by batch verification: also in batches large enough for each algorithm and
+    window the multiscalar code switches to (2n+1 terms: 190, 500, 800 and beyond)"""
+    rng = ctx.rng
+    n = rng.choice([95, 250, 400, rng.randrange(401, 560)])
+    keys = [vals.rb(rng, 32) for _ in range(3)]
+    pks = [ref.ed_public(k) for k in keys]
+    ms, ss, ks = [], [], []
+    for i in range(n):
+        j = rng.randrange(3)
+        m_ = vals.rb(rng, rng.choice([0, 1, 9]))
+        ms.append(hx(m_))
+        ss.append(ref.ed_sign(keys[j], m_).hex())
+        ks.append(pks[j].hex())
+    ctx.add('sig.batch', lst(ms), lst(ss), lst(ks), expect=['ok', 'ok'], cls=['batch:own', 'batch:large'])
+
+
 def make(seed, size, long_msgs=False):
     ctx = core.Ctx(seed, prefix='g%d_' % (seed % 100000))
     gen(ctx, size, long_msgs)
+    if long_msgs:
+        large_batch(ctx)
     return ctx
 
 
